@@ -3,20 +3,10 @@
 (* reduces over the axes |dst| .. |dst|+|dch|-1 of the conditional-continuation-value array, the simulation over        *)
 (* 1 .. |dch| (axis 0 being the agents); no axes when there is no dense discrete choice.                               *)
 From Coq Require Import Lia.
-From LCM Require Import Base.Prelude Base.Arr Base.ArrOps Gen.ChoiceAxes Gen.DiscreteNoShocks Gen.SolveDiscrete Gen.Argmax Gen.SimulateKernels.
+From LCM Require Import Base.Prelude Base.Arr Base.ArrOps Gen.ChoiceAxes Gen.DiscreteNoShocks Gen.SolveDiscrete.
 From LCM Require Import Spec.Lang.
+From LCM Require Export Proofs.C18_VarInfo.
 Local Open Scope nat_scope.
-
-Definition vinfo (st cont : bool) (sg : string * grid) : varinfo :=
-  mkVarinfo (fst sg) st (negb st) cont (negb cont) false false false true.
-Definition vi_of (dst dch cst cch : list (string * grid)) : list varinfo :=
-  (map (vinfo true false) dst ++ map (vinfo false false) dch ++ map (vinfo true true) cst ++ map (vinfo false true) cch)%list.
-
-Lemma filter_map_const {A B} (f : A -> B) (P : B -> bool) (b : bool) l :
-  (forall x, P (f x) = b) -> filter P (map f l) = if b then map f l else [].
-Proof.
-  intros H. induction l as [|x r IH]; [now destruct b|]. cbn [map filter]. rewrite H, IH. now destruct b.
-Qed.
 
 Lemma combine_seq_app {A} (l1 l2 : list A) s :
   combine (seq s (length (l1 ++ l2))) (l1 ++ l2) = (combine (seq s (length l1)) l1 ++ combine (seq (s + length l1) (length l2)) l2)%list.
@@ -121,27 +111,6 @@ Proof.
   cbn [map app Nat.add]. rewrite app_nil_r, !map_length. destruct dch; reflexivity.
 Qed.
 
-(* the simulation: axes 1 .. |dch| *)
-Theorem simulation_axes_of_filter_free :
-  determine_discrete_dense_choice_axes vi = match dch with [] => None | _ => Some (seq 1 (length dch)) end.
-Proof.
-  unfold determine_discrete_dense_choice_axes. rewrite choice_vars_are.
-  assert (E : map vname (filter (fun v => (negb (is_continuous v) && is_dense v) && is_choice v) vi) = map fst dch).
-  { unfold vi, vi_of. rewrite !filter_app, !map_app.
-    rewrite (filter_map_const (vinfo true false) _ false) by reflexivity.
-    rewrite (filter_map_const (vinfo false false) _ true) by reflexivity.
-    rewrite (filter_map_const (vinfo true true) _ false) by reflexivity.
-    rewrite (filter_map_const (vinfo false true) _ false) by reflexivity.
-    cbn [map app]. now rewrite app_nil_r, names_map. }
-  rewrite E. set (cv := (map fst dch ++ map fst cch)%list).
-  assert (G : forall l s, (forall x, In x l -> mem_str x cv = true) ->
-              map (fun iax : nat * string => fst iax + 1) (filter (fun iax => mem_str (snd iax) cv) (combine (seq s (length l)) l)) = seq (s + 1) (length l)).
-  { induction l as [|x r IH]; intros s H; [reflexivity|]. cbn [length seq combine filter snd].
-    rewrite (H x (or_introl eq_refl)). cbn [map fst]. f_equal. rewrite IH by (intros y Hy; apply H; now right). f_equal. }
-  rewrite (G (map fst dch) 0) by (intros x Hx; now apply choice_is_choice). rewrite map_length. cbn [Nat.add].
-  destruct dch; reflexivity.
-Qed.
-
 (* no auxiliary variables: the last period uses the same variable_info *)
 Lemma non_auxiliary_all : filter (fun v => negb (is_auxiliary v)) vi = vi.
 Proof.
@@ -159,8 +128,92 @@ Proof.
   unfold get_solve_discrete_problem. destruct is_last; [rewrite non_auxiliary_all|]; now rewrite solver_axes_of_filter_free.
 Qed.
 
-Theorem policy_calculator_of_filter_free values :
-  get_discrete_policy_calculator vi values None
-  = calculate_discrete_argmax values (match dch with [] => None | _ => Some (seq 1 (length dch)) end) None.
-Proof. unfold get_discrete_policy_calculator. now rewrite simulation_axes_of_filter_free. Qed.
 End FilterFree.
+
+(* ---- with filter-restricted variables: one sparse leading axis ------------------------------------------------------------ *)
+Section WithFilters.
+Variables (rs rc dst dch cst cch : list (string * grid)).
+Hypothesis Hrv : (rs ++ rc)%list <> [].
+Hypothesis Hnd : NoDup (map fst (rc ++ dst ++ dch ++ cst ++ cch)).
+Hypothesis Hname : ~ In "__sparse__"%string (map fst (rc ++ dch ++ cch)).
+Let vi := vi_sparse rs rc dst dch cst cch.
+
+Lemma has_sparse : existsb is_sparse vi = true.
+Proof.
+  unfold vi, vi_sparse. rewrite !existsb_app. destruct rs as [|x r]; [|reflexivity]. destruct rc as [|y r']; [now contradiction Hrv|reflexivity].
+Qed.
+
+Lemma sparse_dense_vars : map vname (filter (fun v => is_dense v && negb (is_choice v && is_continuous v)) vi)
+  = (map fst dst ++ map fst dch ++ map fst cst)%list.
+Proof.
+  unfold vi, vi_sparse, vi_of. rewrite !filter_app, !map_app.
+  rewrite (filter_map_const (vinfo_sparse true) _ false), (filter_map_const (vinfo_sparse false) _ false) by reflexivity.
+  rewrite (filter_map_const (vinfo true false) _ true), (filter_map_const (vinfo false false) _ true),
+          (filter_map_const (vinfo true true) _ true), (filter_map_const (vinfo false true) _ false) by reflexivity.
+  cbn [map app]. rewrite app_nil_r, !map_map. reflexivity.
+Qed.
+
+Lemma sparse_choice_vars : map vname (filter (fun v => is_choice v) vi) = (map fst rc ++ map fst dch ++ map fst cch)%list.
+Proof.
+  unfold vi, vi_sparse, vi_of. rewrite !filter_app, !map_app.
+  rewrite (filter_map_const (vinfo_sparse true) _ false), (filter_map_const (vinfo_sparse false) _ true) by reflexivity.
+  rewrite (filter_map_const (vinfo true false) _ false), (filter_map_const (vinfo false false) _ true),
+          (filter_map_const (vinfo true true) _ false), (filter_map_const (vinfo false true) _ true) by reflexivity.
+  cbn [map app]. rewrite !map_map. reflexivity.
+Qed.
+
+Lemma nodup_split' {A} (l1 l2 : list A) y : NoDup (l1 ++ l2) -> In y l1 -> ~ In y l2.
+Proof.
+  induction l1 as [|a l1' IHl]; intros Hn Hy; [destruct Hy|]. cbn [app] in Hn. inversion Hn as [|? ? Hna Hn']; subst.
+  destruct Hy as [->|Hy]; [intros Hin; apply Hna; apply in_or_app; now right|now apply IHl].
+Qed.
+Lemma nodup_tail' {A} (l1 l2 : list A) : NoDup (l1 ++ l2) -> NoDup l2.
+Proof. induction l1 as [|a l1' IHl]; intros Hn; [exact Hn|]. cbn [app] in Hn. inversion Hn; subst. now apply IHl. Qed.
+
+Lemma sparse_state_not_choice x : In x (map fst dst) \/ In x (map fst cst) ->
+  mem_str x (map fst rc ++ map fst dch ++ map fst cch) = false.
+Proof.
+  intros H. apply Bool.not_true_is_false. intros E. apply mem_str_in in E.
+  pose proof Hnd as N. rewrite !map_app in N.
+  (* N : NoDup (rc ++ dst ++ dch ++ cst ++ cch) on names *)
+  apply in_app_or in E. destruct E as [E|E].
+  - (* x in rc and in dst or cst *)
+    apply (nodup_split' _ _ x N E). destruct H as [H|H]; apply in_or_app; [now left|right; apply in_or_app; right; apply in_or_app; now left].
+  - apply nodup_tail' in N. apply in_app_or in E. destruct H as [H|H].
+    + (* x in dst, and in dch or cch *)
+      apply (nodup_split' _ _ x N H). destruct E as [E|E]; apply in_or_app; [now left|right; apply in_or_app; now right].
+    + apply nodup_tail' in N. destruct E as [E|E].
+      * apply (nodup_split' _ _ x N E). apply in_or_app. now left.
+      * apply nodup_tail' in N. apply (nodup_split' _ _ x N H E).
+Qed.
+
+Theorem solver_axes_with_filters :
+  determine_dense_discrete_choice_axes vi = match dch with [] => None | _ => Some (seq (1 + length dst) (length dch)) end.
+Proof.
+  unfold determine_dense_discrete_choice_axes. rewrite has_sparse, sparse_dense_vars, sparse_choice_vars.
+  set (cv := (map fst rc ++ map fst dch ++ map fst cch)%list).
+  cbn [length seq combine filter snd].
+  replace (mem_str "__sparse__" cv) with false.
+  2:{ symmetry. apply Bool.not_true_is_false. intros E. apply mem_str_in in E. apply Hname. unfold cv in E. now rewrite !map_app. }
+  rewrite (combine_seq_app (map fst dst) (map fst dch ++ map fst cst) 1), (combine_seq_app (map fst dch) (map fst cst)), !filter_app, !map_app.
+  rewrite (filter_combine_none (fun x => mem_str x cv) (map fst dst) 1) by (intros x Hx; apply sparse_state_not_choice; now left).
+  rewrite (filter_combine_none (fun x => mem_str x cv) (map fst cst)) by (intros x Hx; apply sparse_state_not_choice; now right).
+  rewrite (filter_combine_all (fun x => mem_str x cv) (map fst dch))
+    by (intros x Hx; apply mem_str_in; unfold cv; apply in_or_app; right; apply in_or_app; now left).
+  cbn [map app]. rewrite app_nil_r, !map_length. destruct dch; reflexivity.
+Qed.
+
+Lemma non_auxiliary_all_sparse : filter (fun v => negb (is_auxiliary v)) vi = vi.
+Proof.
+  unfold vi, vi_sparse, vi_of. rewrite !filter_app.
+  rewrite (filter_map_const (vinfo_sparse true) _ true), (filter_map_const (vinfo_sparse false) _ true),
+          (filter_map_const (vinfo true false) _ true), (filter_map_const (vinfo false false) _ true),
+          (filter_map_const (vinfo true true) _ true), (filter_map_const (vinfo false true) _ true) by reflexivity.
+  reflexivity.
+Qed.
+
+Theorem solve_discrete_with_filters is_last cc seg :
+  get_solve_discrete_problem vi is_last (Some seg) cc tt
+  = solve_discrete_problem_no_shocks cc (match dch with [] => None | _ => Some (seq (1 + length dst) (length dch)) end) (Some seg) tt.
+Proof. unfold get_solve_discrete_problem. destruct is_last; [rewrite non_auxiliary_all_sparse|]; now rewrite solver_axes_with_filters. Qed.
+End WithFilters.
